@@ -16,6 +16,7 @@ import Driver.Collision
 import Driver.StateDb
 import Driver.Prestate
 import Driver.Bundle
+import Driver.Ether
 /-! Line-protocol driver: one request per line on stdin, one reply per line on stdout.
 Stateless components are dispatched on the first token. A stateful component `X` adds a field
 `x : Driver.X.St := Driver.X.St.init` to `DState`, resets it on `begin x …` and threads it through
@@ -32,6 +33,7 @@ structure DState where
   statedb : StateDb.St := {}
   prestate : Prestate.St := {}
   bundle : Driver.Bundle.St := Driver.Bundle.St.init
+  ether : Driver.Ether.St := Driver.Ether.St.init
   -- stateful component states go here
 
 def step (st : DState) (line : String) : DState × String :=
@@ -62,6 +64,9 @@ def step (st : DState) (line : String) : DState × String :=
   | "pst" :: r => let (s, out) := Prestate.handle st.prestate r; ({ st with prestate := s }, out)
   | "begin" :: "bundle" :: r => let (b, out) := Bundle.handleBegin r; ({ st with bundle := b }, out)
   | "bundle" :: r => let (b, out) := Bundle.handle st.bundle r; ({ st with bundle := b }, out)
+  | "begin" :: "ether" :: r => let (s, o) := Driver.Ether.begin r; ({ st with ether := s }, o)
+  | "e" :: r => let (s, o) := Driver.Ether.handle st.ether r; ({ st with ether := s }, o)
+  | "etx" :: r => (st, Driver.Ether.etx r)
   | _ => (st, "bad-op")
 
 partial def loop (hin hout : IO.FS.Stream) (st : DState) : IO Unit := do
